@@ -334,7 +334,12 @@ func (p *flagParser) parseStringDQuote() (string, error) {
 		}
 
 		i += off
-		if in[i-1] != '\\' {
+		// the quote is escaped only if an odd number of backslashes precedes it
+		n := 0
+		for j := i - 1; j >= 1 && in[j] == '\\'; j-- {
+			n++
+		}
+		if n%2 == 0 {
 			break
 		}
 		off = i + 1
